@@ -309,6 +309,7 @@ pub const ENTRIES: &[Entry] = &[
     S_KEYED_ENUM_LIMIT,
     crate::net::N_HOP,
     crate::net::N_HOP_FOLD,
+    crate::net::N_LOSSY,
     crate::net::N_ROUNDTRIP,
     crate::net::N_FANIN,
     crate::net::N_M2O,
